@@ -10,6 +10,7 @@
   R-TOPMOST  inside the walk `transparent_char` is only overwritten when it is None (the topmost transparent cell wins),
              except on paths that return.
 Not decided: the colour resolution of transparent-colour (half-block) cells."""
+import re
 from analysis import facts as F
 from analysis.expr import ExprBuilder, show
 from rules import panic_common as P
@@ -37,10 +38,115 @@ def is_query_pos(e):
     return e[0] == "call" and e[1].endswith("Into::into") and len(e[2]) == 1 and _is_param(e[2][0])
 
 
+# ===================================================================================================== R-HALFBLOCK
+def half_block(chk, f):
+    """HalfBlock::from (what a see-through half of a cell is resolved against): the colour of the upper half is decided by the
+    pixel count of the upper rows of the glyph beneath, the colour of the lower half by that of the lower rows - two sibling
+    computations that must not be crossed.  Decided only when both counts are recognised (index form `data[i]` /
+    `data[len / 2 + i]`, or the two sides of `split_at(len / 2)` zipped); otherwise nothing is claimed."""
+    b = f.bodies.get("paint::half_block::HalfBlock::from")
+    adt = f.adts.get("paint::half_block::HalfBlock")
+    if b is None or adt is None:
+        return
+    eb = ExprBuilder(b)
+    names = [x[0] for x in adt["variants"][0]["fields"]]
+    if "upper_block_color" not in names or "lower_block_color" not in names:
+        return
+
+    def half_of(acc):
+        """'first' / 'second' / None: which rows the accumulator local sums"""
+        for bi, k in b.defs.get(acc, []):
+            if k == "term":
+                continue
+            e = eb.rvalue(b.blocks[bi]["stmts"][k]["rv"])
+            txt = show(e)
+            if "count_ones(" not in txt:
+                continue
+            # index form
+            idx = None
+
+            def find_index(x, depth=0):
+                nonlocal idx
+                if depth > 40 or not isinstance(x, (tuple, list)):
+                    return
+                if isinstance(x, tuple) and x and x[0] == "call" and isinstance(x[1], str) and x[1].endswith("::index") and len(x[2]) == 2 and ".data" in show(x[2][0]):
+                    idx = x[2][1]
+                    return
+                if isinstance(x, tuple) and x and x[0] == "index" and ".data" in show(x[1]):
+                    idx = x[2]
+                    return
+                for y in x:
+                    if isinstance(y, (tuple, list)):
+                        find_index(y, depth + 1)
+            find_index(e)
+            if idx is not None:
+                it = show(idx)
+                if "len(" in it and "/ 2" in it and "+" in it:
+                    return "second"
+                if "len(" not in it and "next(" in it:
+                    return "first"
+                return None
+            # zip form: (next(..) as Some).0.0 / .0.1 of zip(iter(split_at(..).0), split_at(..).1)
+            m = re.search(r"\(next\(&\w*\) as Some\)\.0\.([01])\b", txt)
+            if m and any((t["callee"].get("resolved") or "").endswith("::split_at") for _, t in b.calls()) \
+                    and any((t["callee"].get("resolved") or "").endswith("Iterator::zip") for _, t in b.calls()):
+                zips = [t for _, t in b.calls() if (t["callee"].get("resolved") or "").endswith("Iterator::zip")]
+                z0, z1 = show(eb.operand(zips[0]["args"][0])), show(eb.operand(zips[0]["args"][1]))
+                if ".0" in z0.split("split_at")[-1] and ".1" in z1.split("split_at")[-1]:
+                    return "first" if m.group(1) == "0" else "second"
+                return None
+        return None
+    checked = 0
+    for bi, k, st in b.stmts():
+        if st["k"] != "assign" or st["rv"]["k"] != "agg" or not (st["rv"].get("adt") or "").endswith("half_block::HalfBlock"):
+            continue
+        ops = dict(zip(names, st["rv"]["ops"]))
+        res = {}
+        for fld in ("upper_block_color", "lower_block_color"):
+            pj = ops[fld].get("copy") or ops[fld].get("move")
+            if pj is None or pj.get("p"):
+                continue
+            l_ = pj["l"]
+            for _ in range(4):              # through plain copies into temporaries
+                ds_ = b.defs.get(l_, [])
+                if len(ds_) == 1 and ds_[0][1] != "term":
+                    r_ = b.blocks[ds_[0][0]]["stmts"][ds_[0][1]]["rv"]
+                    q_ = (r_["a"].get("copy") or r_["a"].get("move")) if r_["k"] == "use" else None
+                    if q_ is not None and not q_.get("p"):
+                        l_ = q_["l"]
+                        continue
+                break
+            accs = set()
+            for db, dk in b.defs.get(l_, []):
+                for d in b.control_deps(db):
+                    t = b.blocks[d]["term"]
+                    if t["k"] != "switch":
+                        continue
+                    c = eb.operand(t["discr"])
+                    if c[0] == "bin" and c[1] in ("Gt", "Ge", "Lt", "Le"):
+                        for side in (c[2], c[3]):
+                            x = side
+                            while x[0] in ("cast", "ref", "deref"):
+                                x = x[2] if x[0] == "cast" else x[1]
+                            if x[0] == "var" and b.ty(x[1])["k"] == "int" and len(b.defs.get(x[1], [])) >= 2:
+                                accs.add(x[1])
+            if len(accs) == 1:
+                res[fld] = half_of(next(iter(accs)))
+        if res.get("upper_block_color") and res.get("lower_block_color"):
+            checked += 1
+            ok = res["upper_block_color"] == "first" and res["lower_block_color"] == "second"
+            chk.obligation(ok)
+            if not ok:
+                chk.finding("HalfBlock::from|halves-crossed", rule="R-HALFBLOCK", where="%s:%s" % (b.file, st.get("line")), fn=b.short(),
+                            what="the colour of the upper half is decided by the %s rows of the glyph and that of the lower half by the %s rows "
+                                 "(expected: first / second)" % (res["upper_block_color"], res["lower_block_color"]))
+    chk.cov["halfblock_sites_decided"] = checked
+
+
 def run(chk):
     f = F.load()
     g, ip = P.shared(f)
-    chk.rules = ["R-VIS", "R-COVER", "R-OFFSET", "R-TOPDOWN", "R-OPAQUE", "R-TOPMOST", "R-STATE-RESET"]
+    chk.rules = ["R-VIS", "R-COVER", "R-OFFSET", "R-TOPDOWN", "R-OPAQUE", "R-TOPMOST", "R-STATE-RESET", "R-HALFBLOCK"]
     chk.assumptions = ["Layer::get_width/get_height return size.width/size.height (checked through their return summaries)",
                        "transparent-colour merging values are not decided"]
     b = f.bodies.get("<buffers::Buffer as TextPane>::get_char")
@@ -290,6 +396,7 @@ def run(chk):
                             what="transparent_char is overwritten while it may already hold the cell of a higher layer (the topmost transparent cell must win)")
         chk.floor("R-TOPMOST", "stores to transparent_char inside the walk", nstores, 2)
     state_reset(chk, f)
+    half_block(chk, f)
     return chk.finish("Buffer::get_char analysed (122 blocks): walk order, offset translation (Sub impl of the same layer), visibility and four-sided "
                       "extent facts at each Layer::get_char call (abstract interpretation), skip edges of the extent test, opaque-layer cut-off and "
                       "topmost-transparent-cell discipline.")
